@@ -502,11 +502,11 @@ class Aspire:
                     saved_config = True
                     if defaults is not None:
                         defaults["saved_config"] = True
-                if (
-                    self.flow is not None
-                    and not saved_flow
-                    and "flow" not in h5_file
-                ):
+                if self.flow is not None:
+                    # Always store the flow the sampler is about to use: a
+                    # flow already in the file may come from an earlier fit
+                    if "flow" in h5_file:
+                        del h5_file["flow"]
                     self.save_flow(h5_file)
                     saved_flow = True
                     if defaults is not None:
